@@ -410,6 +410,11 @@ func (enc Encryptor) encryptZeroSkFromC1(sk *SecretKey, ct Element[ring.Poly], c
 		e := enc.buffQP[0].Q
 		enc.xeSampler.AtLevel(levelQ).Read(e)
 		ringQ.NTT(e, e)
+		// c1 (hence -c1*sk) is interpreted in the Montgomery domain when ct.IsMontgomery
+		// is set (e.g. gadget/RGSW rows without auxiliary modulus): e must be switched too.
+		if ct.IsMontgomery {
+			ringQ.MForm(e, e)
+		}
 		ringQ.Add(c0, e, c0)
 	} else {
 		ringQ.INTT(c0, c0)
@@ -417,7 +422,14 @@ func (enc Encryptor) encryptZeroSkFromC1(sk *SecretKey, ct Element[ring.Poly], c
 			ringQ.INTT(c1, c1)
 		}
 
-		enc.xeSampler.AtLevel(levelQ).ReadAndAdd(c0)
+		if ct.IsMontgomery {
+			e := enc.buffQP[0].Q
+			enc.xeSampler.AtLevel(levelQ).Read(e)
+			ringQ.MForm(e, e)
+			ringQ.Add(c0, e, c0)
+		} else {
+			enc.xeSampler.AtLevel(levelQ).ReadAndAdd(c0)
+		}
 	}
 
 	return
